@@ -102,6 +102,12 @@ CHECKS = {
  "C16": ("fault_enumeration", "crash-point enumeration over catalog histories (same machinery as C13) with a catalog model (rule names + clause counts, schema names)",
          "held on every crash image of the run: the store opens and the recovered rule/schema catalogs are the pre- or post-operation catalogs; without a crash a restart shows exactly the acknowledged catalogs",
          "crash model A; rules compared by name and clause count", "3/C16"),
+ "C18": ("exploration", "differential run-time monitor: store with incremental maintenance vs twin without vs fresh reference evaluation, after every history step",
+         "held on every history of the run: every derived relation answers alike on the incremental store, the plain store and a fresh reference evaluation of the current rules over the current facts, after every step (incremental enabled directly or through `.index create`, at the start or mid-history)",
+         "trusted: reference evaluator; on the pinned tree auto-materialisation never publishes anything, so this check mostly guards against changes that make it live", "3/C18"),
+ "C19": ("exploration", "model-based run-time monitor of consistent reads after every write + scheduler-driven reader/writer interleavings with begun/acknowledged stamps",
+         "held on every history and schedule of the run: read_relation_consistent equals the set model at quiescent points; under concurrency every read succeeds, contains all writes acknowledged before it began and nothing unwritten or deleted-before",
+         "trusted: set model; seeded random schedules over the insert/delete hook points", "3/C19"),
 }
 NOT_YET = "monitor not built yet in this round (design in DESIGN.md section 3); not claimed until a check exists"
 
